@@ -197,6 +197,11 @@ void Search::go()
     }
     iter_search();
 
+    // a search restricted by searchmoves leaves a root entry that is only
+    // valid for that move list: age it like a new position does, so that a
+    // later search of the same position cannot cut off on it at the root
+    if (limits.searchmovesnum > 0) _ttable.updateEpoch(1);
+
     // no iteration completed (stop or limit hit at once): still answer with
     // a move of the root list
     if (_best_move == NO_MOVE && !_root_moves.empty())
